@@ -19,6 +19,7 @@ import CaddyModel.C08.Keys
 import CaddyModel.C10.Lemmas
 import CaddyModel.C08.Witness
 import CaddyModel.C08.Dynamic
+import CaddyModel.C08.Wrappers
 
 namespace CaddyModel.C08
 
@@ -1305,5 +1306,234 @@ example : handed ⟨0, true, false⟩ [] [⟨.u 1, 0⟩] (.multi [.a false 5 (so
       .a true 3 none none none]) = [⟨.u 20, 1, true, true⟩, ⟨.a6 3 80, 0, true, true⟩] ∧
     handed ⟨0, true, false⟩ [] [⟨.u 1, 0⟩] (.multi [.probe false []]) = [] ∧
     resolveIp (some false) (some false) = 0 ∧ resolveIp (some true) none = 4 ∧ resolveIp none (some false) = 0 := by decide
+
+/-! ## Dial addresses with placeholders: `fillDialInfo` runs after `Select`
+
+The selection contract speaks about *available* upstreams (healthy, below their limit). Whether the
+dial address of the selected upstream can be filled in for the request at hand is found out only
+afterwards (hosts.go `fillDialInfo`), and a failure there ends the request: -/
+
+/-- a request whose selected upstream has a dial address that cannot be filled in ends right there,
+    whatever `lb_retries` allows and whatever error the loop carried: no round trip, no retry -/
+theorem dialinfo_failure_ends_request (c : PCfg) (unf : List Nat) (get : Bool) (left : Nat) (prev : PErr)
+    (s : PState) (i : Nat) (hsel : selRes c s = .sel i) (hu : i ∈ unf) :
+    attemptD c unf get left prev s = ([], .dialInfo i, afterDialInfo c s) := by
+  cases left <;> simp [attemptD, hsel, hu]
+
+example : attemptD ⟨false, 0, true, 0, 3, [⟨7, 0, 0⟩, ⟨9, 0, 0⟩], false, 0, []⟩ [0] true 3 .none
+      (pinit .first ⟨false, 0, true, 0, 3, [⟨7, 0, 0⟩, ⟨9, 0, 0⟩], false, 0, []⟩ [])
+    = ([], .dialInfo 0, pinit .first ⟨false, 0, true, 0, 3, [⟨7, 0, 0⟩, ⟨9, 0, 0⟩], false, 0, []⟩ []) := by decide
+
+/-- … and touches no counter: requests in flight, held requests, the breaker and (static
+    upstreams) the remembered failures are what they were — the upstream stays exactly as available
+    as it was; only the policy has moved (its counter, the random draws), as by one `Select` -/
+theorem dialinfo_failure_touches_no_counter (c : PCfg) (s : PState) :
+    (afterDialInfo c s).loads = s.loads ∧ (afterDialInfo c s).held = s.held ∧ (afterDialInfo c s).cb = s.cb ∧
+    (c.dyn = false → (afterDialInfo c s).fails = s.fails) ∧
+    (afterDialInfo c s).pol = (select true s.pol (poolOf c s) s.draws).pol ∧
+    (afterDialInfo c s).draws = (select true s.pol (poolOf c s) s.draws).draws := by
+  refine ⟨rfl, rfl, rfl, ?_, rfl, rfl⟩
+  intro h
+  simp [afterDialInfo, afterSel, dropFails, h]
+
+-- round robin: the refused request has used up a turn (counter 5 → 6), nothing else has changed
+example : (afterDialInfo ⟨false, 0, true, 0, 3, [⟨7, 0, 0⟩, ⟨9, 0, 0⟩], false, 0, []⟩
+      (pinit (.rr 5) ⟨false, 0, true, 0, 3, [⟨7, 0, 0⟩, ⟨9, 0, 0⟩], false, 0, []⟩ [])).pol = .rr 6 := by decide
+
+/-- nothing is ever dialled at an address that could not be filled in: the upstream a request is
+    sent to and every upstream whose round trip failed had a usable dial address; a request that
+    ends in `fillDialInfo` does so for an upstream whose address is unusable -/
+theorem dialinfo_only_filled_addresses_are_dialled (c : PCfg) (unf : List Nat) (get : Bool) (left : Nat)
+    (prev : PErr) (s : PState) :
+    (∀ i, (attemptD c unf get left prev s).2.1 = .dialInfo i → i ∈ unf) ∧
+    (∀ i, (attemptD c unf get left prev s).2.1 = .fin (.sent i) → i ∉ unf) ∧
+    (∀ j, some j ∈ (attemptD c unf get left prev s).1 → j ∉ unf) := by
+  induction left generalizing prev s with
+  | zero =>
+    unfold attemptD
+    split
+    · simp
+    · rename_i i hsel
+      by_cases hc : i ∈ unf
+      · simp [hc]
+      · have hn : i ∉ unf := hc
+        by_cases hb : badAt c.ups i = 0
+        · simp [hc, hb]
+        · simp [hc, hb]
+    · simp
+    · simp
+  | succ left ih =>
+    unfold attemptD
+    split
+    · split
+      · have := ih (carried prev) (afterSel c s)
+        refine ⟨this.1, this.2.1, ?_⟩
+        intro j hj; simp at hj; exact this.2.2 j hj
+      · simp
+    · rename_i i hsel
+      by_cases hc : i ∈ unf
+      · simp [hc]
+      · have hn : i ∉ unf := hc
+        by_cases hb : badAt c.ups i = 0
+        · simp [hc, hb]
+        · by_cases ht : tryAgain (left + 1) (errAt c i) (retryable c get) = true
+          · have := ih (errAt c i) (afterFail c s i)
+            simp only [List.contains_eq_mem, decide_eq_true_eq, hc, hb, ht, if_true, if_false]
+            refine ⟨this.1, this.2.1, ?_⟩
+            intro j hj; simp at hj
+            rcases hj with rfl | hj
+            · exact hn
+            · exact this.2.2 j hj
+          · simp [hc, hb, ht]
+    · simp
+    · simp
+
+-- upstream 0 fails its round trip, upstream 1 cannot be dialled for this request, upstream 2 would answer
+example : (attemptD ⟨false, 0, true, 0, 3, [⟨7, 0, 2⟩, ⟨9, 0, 0⟩, ⟨11, 0, 0⟩], false, 0, []⟩ [1] true 3 .none
+      (pinit .first ⟨false, 0, true, 0, 3, [⟨7, 0, 2⟩, ⟨9, 0, 0⟩, ⟨11, 0, 0⟩], false, 0, []⟩ [])).1 = [some 0] ∧
+    (attemptD ⟨false, 0, true, 0, 3, [⟨7, 0, 2⟩, ⟨9, 0, 0⟩, ⟨11, 0, 0⟩], false, 0, []⟩ [1] true 3 .none
+      (pinit .first ⟨false, 0, true, 0, 3, [⟨7, 0, 2⟩, ⟨9, 0, 0⟩, ⟨11, 0, 0⟩], false, 0, []⟩ [])).2.1 = .dialInfo 1 := by decide
+
+/-- when every dial address can be filled in, the loop is the proxy loop of the `proxy_*` theorems
+    (a request that is not held): placeholders that resolve change nothing -/
+theorem dialinfo_all_filled_is_plain_loop (c : PCfg) (get : Bool) (left : Nat) (prev : PErr) (s : PState) :
+    attemptD c [] get left prev s =
+      ((attempt c false get left prev s).1, .fin (attempt c false get left prev s).2.1, (attempt c false get left prev s).2.2) := by
+  induction left generalizing prev s with
+  | zero =>
+    unfold attemptD attempt
+    cases selRes c s <;> simp
+    split <;> simp
+  | succ left ih =>
+    unfold attemptD attempt
+    cases selRes c s <;> simp [ih]
+    · split <;> simp
+    · split
+      · simp
+      · split <;> simp
+
+example : attemptD ⟨false, 0, true, 0, 1, [⟨7, 0, 2⟩, ⟨9, 0, 0⟩], false, 0, []⟩ [] true 1 .none
+      (pinit .first ⟨false, 0, true, 0, 1, [⟨7, 0, 2⟩, ⟨9, 0, 0⟩], false, 0, []⟩ [])
+    = ([some 0], .fin (.sent 1), (attempt ⟨false, 0, true, 0, 1, [⟨7, 0, 2⟩, ⟨9, 0, 0⟩], false, 0, []⟩ false true 1 .none
+      (pinit .first ⟨false, 0, true, 0, 1, [⟨7, 0, 2⟩, ⟨9, 0, 0⟩], false, 0, []⟩ [])).2.2) := by decide
+
+/-- the upstream whose dial address failed was an *available* one: the selection contract (only
+    available upstreams) is kept — being available says nothing about the dial address -/
+theorem dialinfo_failed_upstream_was_available (c : PCfg) (s : PState) (i : Nat) (hsel : selRes c s = .sel i) :
+    ∃ u, (poolOf c s)[i]? = some u ∧ u.avail = true :=
+  select_returns_available s.pol true (poolOf c s) s.draws i hsel
+
+/-- OBSERVATION (no clause of C08: the policy did return an available upstream). Static upstreams,
+    policy `first`: because the refusal is not a strike and ends the request, an upstream whose dial
+    address cannot be filled in keeps being selected — every later request whose placeholders
+    resolve as badly ends the same way, however many other upstreams are available and however
+    many retries are allowed -/
+theorem first_keeps_selecting_unfillable_upstream (c : PCfg) (hdyn : c.dyn = false) (i : Nat) :
+    ∀ (rs : List (Bool × List Nat)) (s : PState), s.pol = .first → selRes c s = .sel i → (∀ r ∈ rs, i ∈ r.2) →
+      (drun c s rs).1 = rs.map (fun _ => ([], .dialInfo i)) := by
+  intro rs
+  induction rs with
+  | nil => intro s _ _ _; rfl
+  | cons r rs ih =>
+    intro s hp hsel hall
+    obtain ⟨get, unf⟩ := r
+    have hu : i ∈ unf := hall (get, unf) (by simp)
+    have h1 := dialinfo_failure_ends_request c unf get c.retries .none s i hsel hu
+    have hpol : (afterDialInfo c s).pol = .first := by simp [afterDialInfo, afterSel, hp, select]
+    have hpool : poolOf c (afterDialInfo c s) = poolOf c s := by
+      simp [poolOf, afterDialInfo, afterSel, dropFails, hdyn]
+    have hsel' : selRes c (afterDialInfo c s) = .sel i := by
+      have : selRes c s = selFirst (poolOf c s) := by simp [selRes, hp, select]
+      simp [selRes, hpol, hpool, select]
+      rw [← this]; exact hsel
+    have := ih (afterDialInfo c s) hpol hsel' (fun r hr => hall r (by simp [hr]))
+    simp [drun, h1, this]
+
+-- three requests, three retries allowed, upstream 1 available and dialable throughout: all three end in fillDialInfo for upstream 0
+example : (drun ⟨false, 0, true, 0, 3, [⟨7, 0, 0⟩, ⟨9, 0, 0⟩], false, 0, []⟩
+      (pinit .first ⟨false, 0, true, 0, 3, [⟨7, 0, 0⟩, ⟨9, 0, 0⟩], false, 0, []⟩ []) [(true, [0]), (false, [0]), (true, [0])]).1
+    = [([], .dialInfo 0), ([], .dialInfo 0), ([], .dialInfo 0)] := by decide
+
+/-! ## The other producers of a reverse_proxy handler: `forward_auth`, `php_fastcgi` -/
+
+/-- the wrappers' walk leaves a plain `reverse_proxy` segment alone … -/
+theorem wrapper_strip_rp_is_identity (dur : Bytes → Option Int) :
+    ∀ (body : List (List Tok)) (n : Nat) (hdr uri : Bool), stripBody .rp dur n hdr uri body = some (body, uri) := by
+  intro body
+  induction body with
+  | nil => intro n hdr uri; rfl
+  | cons l rest ih =>
+    intro n hdr uri
+    unfold stripBody
+    by_cases hc : isClose l = true
+    · simp [hc, ih]
+    · by_cases hn : n = 1
+      · simp [hc, hn, ownRule, ih]
+      · simp [hc, hn, ih]
+
+theorem groupLines_flatten : ∀ toks : List Tok, (groupLines toks).flatten = toks := by
+  intro toks
+  induction toks with
+  | nil => rfl
+  | cons t ts ih =>
+    unfold groupLines
+    split
+    · rename_i u us rest h
+      rw [h] at ih
+      split <;> simp_all
+    · rename_i h
+      cases ts with
+      | nil => simp
+      | cons a as =>
+        exfalso
+        revert h
+        unfold groupLines
+        split <;> (try split) <;> simp
+
+/-- … so the `reverse_proxy` directive is `Handler.UnmarshalCaddyfile` on its tokens, and the
+    wrappers differ from it only by the tokens they take out -/
+theorem wrapper_rp_is_reverse_proxy (dur : Bytes → Option Int) (addr : Bytes → Option (List Bytes)) (toks : List Tok)
+    (h : toks ≠ []) : parseWrapper .rp dur addr toks = parseReverseProxy dur addr toks := by
+  have hf := groupLines_flatten toks
+  unfold parseWrapper wrapperTokens
+  cases hg : groupLines toks with
+  | nil => rw [hg] at hf; simp at hf; exact absurd hf.symm (by simpa using h)
+  | cons head body =>
+    rw [hg] at hf
+    simp [wrapper_strip_rp_is_identity dur body 1 false false]
+    simp at hf
+    rw [hf]
+
+/-- `forward_auth` without a `uri` subdirective directly inside its block is refused, whatever
+    else is written -/
+theorem forward_auth_requires_uri (dur : Bytes → Option Int) (addr : Bytes → Option (List Bytes)) (head : List Tok)
+    (body ls : List (List Tok)) (toks : List Tok) (hg : groupLines toks = head :: body)
+    (hs : stripBody .fa dur 1 false false body = some (ls, false)) :
+    parseWrapper .fa dur addr toks = .err := by
+  simp [parseWrapper, wrapperTokens, hg, hs]
+
+/-- the tokens of a segment, one inner list per line, numbered from line 1 -/
+private def seg (ls : List (List String)) : List Tok :=
+  (ls.zipIdx.map fun x => x.1.map fun t => (⟨str t, x.2 + 1⟩ : Tok)).flatten
+
+-- wrapper_rp_is_reverse_proxy / forward_auth: `uri` and `copy_headers` are taken out, `lb_policy first` and
+-- `lb_retries 2` reach the handler; nothing written → no policy (Provision: random), no retries, no passive checks
+example : parseWrapper .fa (fun _ => none) (fun a => some [a])
+      (seg [["forward_auth", "a:80", "{"], ["uri", "authz"], ["lb_policy", "first"], ["copy_headers", "X"], ["lb_retries", "2"], ["}"]])
+    = .ok { RpCfg.empty with ups := [str "a:80"], pol := some [.simple 3], retries := 2 } ∧
+    parseWrapper .fa (fun _ => none) (fun a => some [a]) (seg [["forward_auth", "a:80", "{"], ["uri", "authz"], ["}"]])
+    = .ok { RpCfg.empty with ups := [str "a:80"] } ∧
+    wrapperCaseOK .fa (seg [["forward_auth", "a:80", "{"], ["uri", "authz"], ["lb_policy", "first"], ["copy_headers", "X"], ["lb_retries", "2"], ["}"]]) = true := by decide
+-- forward_auth_requires_uri: no `uri`, or only one inside a nested block → refused; `uri` with a second argument leaves a token
+-- reverse_proxy does not know → refused
+example : parseWrapper .fa (fun _ => none) (fun a => some [a]) (seg [["forward_auth", "a:80", "{"], ["lb_retries", "2"], ["}"]]) = .err ∧
+    parseWrapper .fa (fun _ => none) (fun a => some [a]) (seg [["forward_auth", "a:80", "{"], ["uri", "x", "y"], ["}"]]) = .err ∧
+    stripBody .fa (fun _ => none) 1 false false (groupLines (seg [["lb_retries", "2"], ["}"]])) = some (groupLines (seg [["lb_retries", "2"], ["}"]]), false) := by decide
+-- php_fastcgi: its own subdirectives are taken out, `max_fails 3` makes passive health checks; `env` with one argument is refused
+example : parseWrapper .php (fun _ => none) (fun a => some [a])
+      (seg [["php_fastcgi", "a:9000", "{"], ["root", "srv"], ["env", "K", "v"], ["max_fails", "3"], ["capture_stderr"], ["}"]])
+    = .ok { RpCfg.empty with ups := [str "a:9000"], passive := true, maxFails := 3 } ∧
+    parseWrapper .php (fun _ => none) (fun a => some [a]) (seg [["php_fastcgi", "a:9000", "{"], ["env", "K"], ["}"]]) = .err ∧
+    parseWrapper .rp (fun _ => none) (fun a => some [a]) (seg [["reverse_proxy", "a:9000", "{"], ["root", "srv"], ["}"]]) = .err := by decide
 
 end CaddyModel.C08
